@@ -38,8 +38,8 @@ claimed.update({
  "C14": dict(text="Deductive proof that the map-backed encoders under contract (Record/Set MarshalCedar and MarshalJSON, PolicySet.MarshalCedar) emit their elements in sorted key order - sortedness and completeness of the key list asserted after the sort for every map iteration order - and that a record literal evaluates its attributes in sorted key order (first error is order-independent).",
              note="Only the order-determining step is proved; the bytes written for each element (fmt/strconv/encoding/json) are opaque to the contract logic. Determinism of Authorize's decision/reason/error sets is the C02 proof (set-based specification, independent of enumeration order). Entity map, schema and policy JSON encoders are not under contract.",
              ref="DESIGN.md §6 C14"),
- "C16": dict(text="Deductive proof of panic-freedom and totality of Validator.typeOfValue for every value (including set, record and extension literals decoded from JSON): a thin slice of the property.",
-             note="Thin slice: resolution (cycle handling), the remaining type checker and termination of isEntityDescendant (repaired by a fix commit, visited set) are unverified surroundings; see DESIGN.md for what was tried.",
+ "C16": dict(text="Slice: deductive proof of panic-freedom and totality of Validator.typeOfValue for every value (including set, record and extension literals decoded from JSON), and of termination and panic-freedom of the walk over a possibly cyclic entity-type hierarchy (isEntityDescendantFrom: recursion measure = number of schema entity types not yet seen).",
+             note="Resolution (cycle detection for common types and action groups), isActionDescendant (terminates only because the resolver rejects action cycles - a cross-function invariant not under contract) and the rest of the type checker are unverified surroundings. The three facts about the measure (finite-set cardinality) are axioms.",
              ref="DESIGN.md §6 C16"),
  "C06": dict(text="Slice: deductive proof that the partial evaluator decides a scope clause exactly when the request part is a concrete entity, with the verdict the full semantics gives (equality, reachability, reachability of some member of the set form - soundness and completeness -, type test), that unknown parts leave the clause in place and ignored parts satisfy it.",
              note="Only partialScopeEval and the three scope wrappers are under contract. The expression-level partial evaluator (partial, tryPartial, partialAnd/Or/IfThenElse) and PartialPolicy's condition handling are unverified surroundings; the suspected unsoundness for unknowns nested in composite values (DESIGN.md section 6) is therefore neither proved absent nor recorded as a finding.",
